@@ -24,7 +24,8 @@ from . import common
 sys.set_int_max_str_digits(0)  # the exact model returns rationals with many thousand digits
 
 PROP = "C04"
-LEAN_MODULES = ["MiciVerif.Props.C04"]
+GENERATED = ["solver_loops"]
+LEAN_MODULES = ["MiciVerif.Props.C04", "MiciVerif.Props.C04S"]
 LEAN_EXTRA = ["MiciVerif.Model.Constrained", "MiciVerif.Proto"]
 
 SOLVERS = {
@@ -32,6 +33,26 @@ SOLVERS = {
     "newton": "solve_projection_onto_manifold_newton",
     "ls": "solve_projection_onto_manifold_newton_with_line_search",
 }
+
+
+def changed_solvers():
+    """Solvers whose translation (Generated/SolverLoopsProj.lean, regenerated from the tree under test by this
+    run) differs from the clean-tree translation (Generated.expected/) or failed: where the search escalates."""
+    import re
+
+    gen = common.LEAN / "MiciVerif" / "Generated" / "SolverLoopsProj.lean"
+    exp = common.LEAN / "MiciVerif" / "Generated.expected" / "SolverLoopsProj.lean"
+    try:
+        g, e = gen.read_text(), exp.read_text()
+    except OSError:
+        return set(SOLVERS)
+
+    def chunks(txt):
+        parts = re.split(r"(?m)^(?:/- NOT TRANSLATED.*\n)?def (solve_projection_onto_manifold_\w+?)_translated : Bool := (\w+)\n", txt)
+        return {parts[k]: (parts[k + 1], parts[k + 2]) for k in range(1, len(parts) - 2, 3)}
+
+    cg, ce = chunks(g), chunks(e)
+    return {sk for sk, name in SOLVERS.items() if cg.get(name) != ce.get(name) or cg.get(name, ("false",))[0] != "true"}
 
 
 class _Timeout(Exception):
@@ -466,8 +487,8 @@ def gen_tol(rng, loose=False):
     return [ctol, ptol, dtol]
 
 
-def solve_case(rng, ctx, *, ls_stress=False):
-    sk = "ls" if ls_stress else str(rng.choice(["qn", "newton", "ls"]))
+def solve_case(rng, ctx, *, ls_stress=False, force_solver=None):
+    sk = "ls" if ls_stress else (force_solver or str(rng.choice(["qn", "newton", "ls"])))
     sp = gen_spec(rng, force_kind=str(rng.choice(["sphere", "ellipsoid", "quadric"])) if ls_stress else None,
                   dyadic_mom=rng.random() < 0.7)
     tol = gen_tol(rng, loose=(sk == "qn"))
@@ -734,6 +755,26 @@ def run(ctx: common.Ctx):
             ctx.count("step:model-skipped-long-iteration-chain")
     for k, mline in zip(idx, common.run_driver("C04", reqs, timeout=1500), strict=True):
         compare_step(ctx, scases[k], souts[k], mline)
+    # -- escalation: a broken proof obligation (in particular `src_*_eq_model`: the solver bodies translated from
+    # the tree under test are no longer the model) multiplies the failing-input search on the real solvers,
+    # concentrated on the solvers whose translation changed; direct oracle only ---------------------------------
+    if (not ctx.build_ok) or any(not o["ok"] for o in ctx.obligations):
+        focus = sorted(changed_solvers()) or sorted(SOLVERS)
+        ctx.count("search_escalated")
+        ctx.extra["escalated_on_solvers"] = focus
+        for k in range(ctx.n(2400, 12000)):
+            sk = focus[k % len(focus)]
+            stress = sk == "ls" and k % 2 == 0
+            case = solve_case(rng, ctx, ls_stress=stress, force_solver=sk)
+            if k % 3 == 0:
+                case["max_iters"] = int(rng.integers(1, 4))     # exhaustion / early-return paths
+            if k % 5 == 0 and not stress:
+                case["tol"][2] = float(rng.choice([0.05, 0.25, 0.75]))  # divergence test reachable
+            out, _ = check_solve_case(ctx, case)
+            if out is not None:
+                ctx.case({"solve-escalated": [sk, case["spec"]["kind"], case["spec"]["cls"], case["t"], case["max_iters"], case["max_ls"]]},
+                         nontrivial=out["kind"] != "unbound")
+                ctx.count(f"solve-escalated:{sk}:{out['kind']}")
     # -- steps of Gaussian-split systems and long inner loops: direct oracle only --------------
     for _ in range(ctx.n(90, 1000)):
         case = step_case(rng)
@@ -790,12 +831,21 @@ LEVEL_TEXT = (
     "solve_setup_fault, solve_maxIters_exhausted); a constrained leapfrog step that returns ends with |c(q')| < tol and "
     "J M^-1 p' = 0 exactly (constrained_step_post, projectCot_post) and every failure of a step is a ConvergenceError, "
     "NonReversibleStepError or the IntegratorError into which Integrator.step converts ValueError/LinAlgError "
-    "(step_failure_contained). The model is tied to the code by running the real "
+    "(step_failure_contained). The BODIES of the three projection solvers are translated from the source on every run "
+    "(Generated/SolverLoopsProj.lean: set-up calls, try/for/except skeleton, tests, updates with Python's operator "
+    "precedence, abs/sign of the time step, the halving loop with its for-else branch) and proved equal to the hand model "
+    "for every oracle family, tolerance, max_iters and fuel (src_quasi_newton_eq_model, src_newton_eq_model, "
+    "src_line_search_eq_model, src_*_loop_eq_model, src_line_search_inner_eq_model, src_solve_eq_model); the "
+    "post-conditions are transported to the generated definitions (src_quasi_newton_post, src_newton_post, "
+    "src_line_search_post, src_solve_ok_or_convergenceError, src_lineSearch_consistent). The model is also tied to the code by running the real "
     "solvers / projection / integrator step against the model over Q on random quadric constraints and by direct "
     "residual oracles on the real code."
 )
 LEVEL_NOTE = (
-    "Trusted: Lean kernel, axioms {propext, Classical.choice, Quot.sound}; correspondence harness and tolerances. "
+    "Trusted: Lean kernel, axioms {propext, Classical.choice, Quot.sound}; correspondence harness and tolerances; the "
+    "solver-loop translator's conventions (system calls are the model's oracles, exceptions only from them, messages not "
+    "evaluated, np.isnan is False over a field, None placeholders are zeros, the reason of a ConvergenceError is read off "
+    "its message). "
     "Theorems are about the exact-field model: float rounding (the 'to solver tolerance' part of the cotangent condition), "
     "NaN handling (np.isnan) and LAPACK are outside and only exercised by the harness. constrained_step_post assumes the "
     "Gram inverse returned by the linear algebra is a true inverse (checked data in the driver). The solvers' behaviour "
